@@ -863,6 +863,43 @@ func c19S3(l *core.Ledger, r *rt) {
 	l.Check(len(writers) == 1 && writers[0] == "gorums.(MultiSorter).Sort", "C19-S3", "who-may-write/MultiSorter.nodes", token.NoPos,
 		"only Sort assigns the slice", fmt.Sprintf("MultiSorter.nodes is assigned by %v; expected only Sort", writers))
 
+	// the key list is what OrderedBy was given, for every Sort: only the constructor assigns it, nobody
+	// stores into its elements, and nobody builds another slice on its backing array (x[:0], append)
+	var lessWriters []string
+	for _, f := range allFuncs(l.Prog, r.pkg) {
+		f := f
+		sx.AllInstrs(f, func(_ sx.Node, in ssa.Instruction) {
+			isLess := func(v ssa.Value) bool {
+				return sx.Any(sx.Origins(v), func(o sx.Origin) bool {
+					return o.Kind == sx.KField && o.Field != nil && o.Field.Name() == "less" && o.Field.Pkg() != nil && o.Field.Pkg().Path() == core.RootModule
+				})
+			}
+			switch x := in.(type) {
+			case *ssa.Store:
+				if base, ok := fieldAddrOf(x.Addr, "less"); ok && isNamed(base.Type(), core.RootModule, "MultiSorter") {
+					if _, fresh := base.(*ssa.Alloc); !fresh {
+						lessWriters = append(lessWriters, fnKey(f)+" assigns the field")
+					}
+				}
+				if ia, ok := x.Addr.(*ssa.IndexAddr); ok && isLess(ia.X) {
+					lessWriters = append(lessWriters, fnKey(f)+" stores into an element")
+				}
+			case *ssa.Slice:
+				if isLess(x.X) && x.High != nil {
+					if c, isC := x.High.(*ssa.Const); isC && c.Value != nil && c.Value.String() == "0" {
+						lessWriters = append(lessWriters, fnKey(f)+" re-uses the backing array (less[:0])")
+					}
+				}
+			case *ssa.Call:
+				if b, isB := x.Call.Value.(*ssa.Builtin); isB && b.Name() == "append" && len(x.Call.Args) > 0 && isLess(x.Call.Args[0]) {
+					lessWriters = append(lessWriters, fnKey(f)+" appends to it")
+				}
+			}
+		})
+	}
+	sort.Strings(lessWriters)
+	l.Check(len(lessWriters) == 0, "C19-S3", "who-may-write/MultiSorter.less", token.NoPos, "the key list is only set at construction and never written through", fmt.Sprintf("the sorter's key list is modified after construction (%v): a later Sort with the same sorter no longer orders by the keys OrderedBy was given", lessWriters))
+
 	if fn := r.mustFn("C19-S3", "MultiSorter.Sort"); fn != nil {
 		const key = "gorums.(MultiSorter).Sort"
 		ms, arg := fn.Params[0], fn.Params[1]
